@@ -70,7 +70,9 @@ CORE = [0, 1, 2, 3, 4, 5, 7, 9, 11, 19, 20, 21]  # grouped/numbered variants at 
 
 
 def _L(tier):
-    return 3 if tier == "quick" else 4
+    """Full alphabet up to this length (both tiers); thorough adds length 4 over CORE and length 5
+    over SHADOW_ONLY (the full alphabet at length 4 took ~2 h)."""
+    return 3
 
 
 VARIANTS = [dict(grouped=False, numbered=False, skip=None), dict(grouped=True, numbered=False, skip=None),
@@ -80,7 +82,8 @@ VARIANTS = [dict(grouped=False, numbered=False, skip=None), dict(grouped=True, n
 
 
 def describe(tier, seed):
-    return dict(max_len=_L(tier), longer_over_shadow_items=_L(tier) + 1,
+    return dict(max_len_full_alphabet=_L(tier), len4_over_core_items=(tier == "thorough"),
+                longer_over_shadow_items=4 if tier == "quick" else 5,
                 alphabet=[it.text("ios") for it in items(seed)], variants=VARIANTS,
                 platforms=["ios", "nxos(flat unnumbered, quick: length<=2)"])
 
@@ -95,6 +98,10 @@ def units(tier, seed):
         for b in SHADOW_ONLY:
             out.append(dict(kind="long", first=[a, b]))
     out.append(dict(kind="twins"))
+    if tier == "thorough":
+        for a in CORE:
+            for b in CORE:
+                out.append(dict(kind="core4", first=[a, b]))
     return out
 
 
@@ -122,6 +129,11 @@ def run_unit(unit, ctx):
                         check_acl("ios", idx, VARIANTS[1], ctx)
         return
     first = tuple(unit["first"])
+    if unit["kind"] == "core4":
+        for rest in product(CORE, repeat=2):
+            for var in VARIANTS[:4]:
+                check_acl("ios", first + rest, var, ctx)
+        return
     if unit["kind"] == "lists":
         for ln in range(3, _L(ctx.tier) + 1):
             for rest in product(range(n), repeat=ln - 2):
@@ -138,7 +150,7 @@ def run_unit(unit, ctx):
                     check_acl("nxos", first + rest, VARIANTS[0], ctx)
                     check_acl("ios", first + rest, VARIANTS[4], ctx)
     else:
-        ln = _L(ctx.tier) + 1
+        ln = 4 if ctx.tier == "quick" else 5
         for rest in product(SHADOW_ONLY, repeat=ln - 2):
             check_acl("ios", first + rest, VARIANTS[0], ctx)
             check_acl("ios", first + rest, VARIANTS[2], ctx)
